@@ -272,6 +272,12 @@ func runWorker(known []knownFinding) {
 		seed := mixSeed(*fSeed, i)
 		plan := engine.GenPlan(*fProp, seed, *fTier, guardsFor(known, *fProp, i))
 		res := execPlan(plan)
+		if strings.HasPrefix(res.Infra, "simulation artifact") {
+			// the run is discarded, the search goes on (DESIGN 0.2: transactions
+			// whose body runs goroutines of its own)
+			out.Probes["run discarded: simulator cannot interleave inside bbolt"]++
+			continue
+		}
 		if res.Infra != "" {
 			out.Infra = fmt.Sprintf("run index %d seed %d: %s", i, seed, res.Infra)
 			break
@@ -316,7 +322,10 @@ func runWorker(known []knownFinding) {
 		if i%97 == 0 || os.Getenv("SIMCHECK_RECHECK_ALL") != "" {
 			res2 := execPlan(plan)
 			out.Rechecked++
-			if res2.LogHash != res.LogHash || (res2.Violation == nil) != (res.Violation == nil) {
+			const unrepeatable = "bolt transaction body ran goroutines of its own (run not repeatable)"
+			if res.Stats.Probes[unrepeatable]+res2.Stats.Probes[unrepeatable] > 0 {
+				// part of such a run executes on a goroutine the scheduler does not own
+			} else if res2.LogHash != res.LogHash || (res2.Violation == nil) != (res.Violation == nil) {
 				diff := ""
 				for li := range res.Log {
 					if li >= len(res2.Log) || res.Log[li] != res2.Log[li] {
